@@ -177,11 +177,11 @@ def plan(prop, tier, seed):
             G.append([(name, f(S(), *a, **kw))])
     if prop == "C01":
         data(n(50, 600)); data(n(10, 80), with_close=True, updates=True); fam(n(20, 200), scen.window_session, "window"); data(n(3, 30), big_groups=True)
-        fam(n(12, 200), scen.deep_session, "deep")
+        fam(n(12, 200), scen.deep_session, "deep"); fam(n(6, 60), scen.queue_full_session, "queue-full")
     elif prop == "C02":
-        data(n(40, 400)); fam(n(40, 500), scen.window_session, "window"); fam(n(25, 400), scen.refresh_session, "refresh")
+        data(n(40, 400)); fam(n(40, 500), scen.window_session, "window"); fam(n(25, 400), scen.refresh_session, "refresh"); fam(n(4, 40), scen.queue_full_session, "queue-full")
     elif prop == "C03":
-        data(n(50, 500), p_rel=0.5); data(n(5, 60), big_groups=True); fam(n(30, 400), scen.wrap_partial_session, "wrap-partial")
+        data(n(50, 500), p_rel=0.5); data(n(5, 60), big_groups=True); fam(n(30, 400), scen.wrap_partial_session, "wrap-partial"); fam(n(4, 40), scen.queue_full_session, "queue-full")
     elif prop == "C04":
         data(n(25, 300))
         for _ in range(n(25, 400)):
